@@ -388,10 +388,13 @@ func (g *schemaGen) clusterSchema() map[string]any {
 	for _, kw := range subset(c, []int{0, 1, 2, 3, 4, 5, 6, 7}, 2, 4) {
 		switch kw {
 		case 7:
-			rs := subset(c, propPool, 1, 2)
+			rs := subset(c, propPool, 1, 5) // lists of 3, 5, 6, 7 names leave spare capacity in what is built from them
 			arr := make([]any, len(rs))
 			for i, r := range rs {
 				arr[i] = r
+			}
+			if g.draft7 && c.W(4) == 0 {
+				arr = append(arr, arr[0]) // draft-07 tolerates a repeated name
 			}
 			s["required"] = arr
 		case 6:
